@@ -146,7 +146,7 @@ def job_fields(ctx, mode, form, tkind, zkind, ranges=None, K=C.KWIDE, pins=None)
                    bounds={"year": "K in %s" % (K,), "windows": {n: WIN[n] for n in names}}, sample_every=100)
 
 
-DEC_FRACTIONS = [0.5, 0.25, 0.0, 0.999999]
+DEC_FRACTIONS = [0.5, 0.25, 0.0, 0.984375]      # dyadic: exact in the rational proxy
 
 
 def job_fields_decimal(ctx, mode, unit, frac):
@@ -414,7 +414,7 @@ INFO = {
                    "minute/second -2..62, zone hour -101..101, zone minute -62..62), every year, each date notation, partial "
                    "notations and conflicting notations: accepted <=> oracle-valid in the active calendar mode; a refusal is a "
                    "ValueError subclass; an accepted object carries exactly the given values. Decimal forms: hour / minute / second as a "
-                   "symbolic integer in the same windows plus a fraction from {0, 0.25, 0.5, 0.999999}: accepted <=> a possible time "
+                   "symbolic integer in the same windows plus a fraction from {0, 0.25, 0.5, 0.984375} (dyadic, exact): accepted <=> a possible time "
                    "of day (24 only as 24:00:00 with no fraction). Text clause (bounded): the three parsers on strings "
                    "with fully symbolic printable-ASCII characters (strings up to 6-7 characters, and every 1-3 character mutation window of 18 valid "
                    "expressions) either return an object or raise an error derived from ValueError, and the exploration terminates.",
